@@ -290,6 +290,40 @@ func enumerate(fn *ssa.Function, opt LeafOptions, cx *callCtx, cut bool) ([]*Lea
 			err = fmt.Errorf("%s: more than %d paths", fn.String(), opt.MaxPaths)
 			return
 		}
+		if lp := revLoopAt(blk); lp != nil && opt.Forward && pred != lp.body {
+			// a reverse look-up loop over a map (revloop.go): not walked, summarised
+			rb := NewBuilder(fn)
+			rb.Forward = opt.Forward
+			rb.InlineOK = opt.InlineOK
+			rb.PhiChoice = st.phi
+			rb.Bind = st.bind
+			if cx != nil {
+				rb.IDOff = cx.off
+			}
+			mt, xt := rb.Term(lp.m), rb.Term(lp.x)
+			has := &Term{Op: "revhas", Args: []*Term{mt, xt}}
+			if gs, keep := addGuard(st.guards, has); keep {
+				nb := make(map[ssa.Value]*Term, len(st.bind)+2)
+				for k, v := range st.bind {
+					nb[k] = v
+				}
+				if lp.key != nil {
+					nb[lp.key] = &Term{Op: "rev", Args: []*Term{mt, xt}, Typ: lp.key.Type()}
+				}
+				nb[lp.val] = xt
+				ns := st
+				ns.guards, ns.bind = gs, nb
+				ns.blocks = append(append([]int{}, st.blocks...), blk.Index, lp.body.Index)
+				walk(lp.match, lp.body, ns)
+			}
+			if gs, keep := addGuard(st.guards, NotCond(has)); keep {
+				ns := st
+				ns.guards = gs
+				ns.blocks = append(append([]int{}, st.blocks...), blk.Index)
+				walk(lp.done, blk, ns)
+			}
+			return
+		}
 		onPath[blk]++
 		defer func() { onPath[blk]-- }()
 		// resolve φ-nodes by the incoming edge
